@@ -1,0 +1,102 @@
+//go:build verif
+
+// Package verifhook provides named instrumentation points for the verification harness.
+// With the "verif" build tag, Point records (sequence number, goroutine id, site, args) and,
+// when a controller is installed, hands control to it so that a schedule can park the calling
+// goroutine at the site until the harness releases it.
+package verifhook
+
+import (
+	"bytes"
+	"runtime"
+	"strconv"
+	"sync"
+	"sync/atomic"
+)
+
+type Event struct {
+	Seq  int64
+	Gid  int64
+	Site string
+	Args []int64
+}
+
+var (
+	mu      sync.Mutex
+	seq     int64
+	events  []Event
+	logging atomic.Bool
+	ctrl    atomic.Pointer[func(site string, gid int64, args []int64)]
+)
+
+// GoID returns the current goroutine's id (parsed from the stack header; harness use only).
+func GoID() int64 {
+	var buf [64]byte
+	n := runtime.Stack(buf[:], false)
+	b := buf[:n]
+	b = bytes.TrimPrefix(b, []byte("goroutine "))
+	i := bytes.IndexByte(b, ' ')
+	if i < 0 {
+		return -1
+	}
+	id, _ := strconv.ParseInt(string(b[:i]), 10, 64)
+	return id
+}
+
+// Point records the event (if logging is on) and then calls the controller (if any). The
+// controller runs on the calling goroutine and may block it.
+func Point(site string, args ...int64) {
+	c := ctrl.Load()
+	if !logging.Load() && c == nil {
+		return
+	}
+	gid := GoID()
+	if logging.Load() {
+		mu.Lock()
+		seq++
+		a := make([]int64, len(args))
+		copy(a, args)
+		events = append(events, Event{Seq: seq, Gid: gid, Site: site, Args: a})
+		mu.Unlock()
+	}
+	if c != nil {
+		(*c)(site, gid, args)
+	}
+}
+
+// StartLog clears the event log and starts recording.
+func StartLog() {
+	mu.Lock()
+	events = nil
+	seq = 0
+	mu.Unlock()
+	logging.Store(true)
+}
+
+// StopLog stops recording and returns the events in order.
+func StopLog() []Event {
+	logging.Store(false)
+	mu.Lock()
+	defer mu.Unlock()
+	out := events
+	events = nil
+	return out
+}
+
+// Snapshot returns a copy of the events recorded so far.
+func Snapshot() []Event {
+	mu.Lock()
+	defer mu.Unlock()
+	out := make([]Event, len(events))
+	copy(out, events)
+	return out
+}
+
+// Install sets (or, with nil, removes) the controller.
+func Install(c func(site string, gid int64, args []int64)) {
+	if c == nil {
+		ctrl.Store(nil)
+		return
+	}
+	ctrl.Store(&c)
+}
